@@ -244,11 +244,10 @@ class error_999_visitor(pyx12.error_visitor.error_visitor):
             raise EngineError('Cannot create AK2 : err_st is None')
         if err_st.trn_set_id is None:
             raise EngineError('Cannot create AK2: err_st.trn_set_id was not set')
-        if err_st.trn_set_control_num is None:
-            raise EngineError('Cannot create AK2: err_st.trn_set_control_num was not set')
         seg_data = pyx12.segment.Segment('AK2', '~', '*', ':')
         seg_data.set('01', err_st.trn_set_id)
-        seg_data.set('02', err_st.trn_set_control_num.strip())
+        # an ST without ST02 has no control number: acknowledged with an empty AK202
+        seg_data.set('02', (err_st.trn_set_control_num or '').strip())
         if err_st.vriic is not None:
             # AK203 is situational: a set without ST03 is acknowledged without it
             seg_data.set('03', err_st.vriic)
